@@ -67,7 +67,7 @@ class C14:
             elif r < 0.8:
                 ops.append(['qtake', c, rng.randint(0, 2), rng.choice(['an', 'an', 'the']), rng.random() < 0.5])
             else:
-                ops.append(['query', c, rng.random() < 0.4])
+                ops.append(['query', c, rng.random() < 0.4] + (['early'] if rng.random() < 0.35 else []))
         # every history ends by querying every root class
         for c in range(ncls):
             if classes[c]['parent'] is None:
@@ -183,6 +183,7 @@ class C14:
             depth = max(depth, k)
         d['hierarchy_depth_%d' % depth] += 1
         d['steps'] += len(case['ops'])
+        d['queries_declared_on_an_empty_registry_evaluated_later'] += sum(1 for op in case['ops'] if op[0] == 'query' and len(op) > 3)
         if isinstance(io, str) and io.startswith('X'):
             d['impl_exception'] += 1
         return d
